@@ -8,6 +8,7 @@ echo "|---|---|---|---|---|---|" >> seeded/MATRIX.md
 for d in seeded/C*/; do
   name=$(basename $d); id=${name%%-*}
   [ -f "$d/patch.diff" ] || continue
+  if [ -f "$d/OBSOLETE" ]; then echo "| $name | $id | - | - | skipped | obsolete: $(head -1 $d/OBSOLETE) |" >> seeded/MATRIX.md; continue; fi
   PATCH="/verif/$d/patch.diff"; [ -f "$d/patch.ported.diff" ] && PATCH="/verif/$d/patch.ported.diff"
   if ! git -C /repo apply --check "$PATCH" 2>/dev/null; then echo "$name: patch does not apply"; continue; fi
   git -C /repo apply "$PATCH"
